@@ -4,6 +4,16 @@ pid = sys.argv[1]
 props = {json.loads(l)["id"]: json.loads(l) for l in open('/verif/properties.jsonl')}
 p = props[pid]
 d = "/tmp/mut_" + pid
+import glob, os
+avoid = []
+for m in sorted(glob.glob('/verif/seeded/%s-m*/meta.json' % pid)):
+    try:
+        avoid.append("- " + json.load(open(m)).get("summary", "")[:300].replace("\n", " "))
+    except Exception:
+        pass
+avoid_text = ""
+if avoid and len(sys.argv) > 2 and sys.argv[2] == "wave2":
+    avoid_text = "\n\nOther people have already produced the following mutants for this property; yours must be DIFFERENT (other code sites, other mechanisms, other inputs needed to manifest):\n" + "\n".join(avoid) + "\n"
 print(f"""You are working ONLY inside the scratch git worktree {d} — a checkout of the Rust proc-macro crate frozenlib/derive-ex (crate sources in {d}/derive-ex/src, its test-suite in {d}/derive-ex-tests/tests, user documentation in {d}/doc/derive_ex.md). Do not read or write anything outside {d} (in particular never look at /verif, /repo or anything under /root/.claude). The machine is offline: always pass --offline to cargo.
 
 Here is a semantic property that derive-ex is supposed to satisfy:
@@ -20,7 +30,7 @@ Your task: produce realistic *property-breaking changes* (mutants) to the derive
 
 Prefer changes that need something specific to manifest — an unusual input, a particular combination of two attributes, a specific trait subset, a multi-field/multi-variant shape, or two cooperating code sites that each look fine alone — NOT ones that any ordinary use would expose at once (those would be caught by the existing tests anyway). Each mutant should be small (a few lines).
 
-Please produce 3 DIFFERENT mutants (different code sites / different mechanisms). For each mutant k = 1, 2, 3 deliver a directory {d}/MUTANTS/m<k>/ containing:
+""" + avoid_text + f"""Please produce 3 DIFFERENT mutants (different code sites / different mechanisms). For each mutant k = 1, 2, 3 deliver a directory {d}/MUTANTS/m<k>/ containing:
   - patch.diff : output of `git diff -- derive-ex/src` for that mutant alone (it must apply with `git apply` to a clean checkout);
   - demo.rs    : the demonstration test file (or demo.txt with program + command);
   - meta.json  : {{"property": "{pid}", "summary": "...what was changed...", "needs": "...what specific input/condition it needs to manifest...", "verified": "...exact commands you ran and their results (suite with mutant: N passed; demo with mutant: fails; demo without mutant: passes)..."}}
